@@ -142,7 +142,7 @@ PH_BAD = st.one_of(st.floats(-10, 0, exclude_max=True, allow_nan=False), st.floa
 def hyp_case(draw, max_len):
     cls, s = draw(ph_seq(max_len))
     return {"seq": s, "cls": cls, "pH": draw(st.lists(PH_OK, min_size=1, max_size=3)), "bad_pH": draw(st.lists(PH_BAD, max_size=1)),
-            "warm": draw(gens.warmups()) if len(s) <= 60 else []}
+            "warm": draw(gens.warmups()) if len(s) <= 60 else [], "paste": draw(gens.paste_opt())}
 
 
 def _parts(tier):
